@@ -25,6 +25,31 @@ type namedChan chan int
 type namedFunc func(int) string
 type stringer interface{ String() string }
 
+// twin named struct types (identical underlying types) and named composites over them: the conversion / assignability
+// rules that mention "unnamed" or "identical underlying types" must tell them apart
+type namedPtr1 *namedStruct
+type namedPtr2 *namedStruct2
+type namedPtr1b *namedStruct
+type namedPtrPtr1 **namedStruct
+type namedSlice1 []namedStruct
+type namedSlice2 []namedStruct2
+type namedArr1 [2]namedStruct
+type namedArr2 [2]namedStruct2
+type namedMap1 map[string]namedStruct
+type namedMap2 map[string]namedStruct2
+type namedChan1 chan namedStruct
+type namedChan2 chan namedStruct2
+type namedFunc1 func(namedStruct) *namedStruct
+type namedFunc2 func(namedStruct2) *namedStruct2
+type namedTagged struct {
+	A int `t:"1"`
+}
+type namedPtrTagged *namedTagged
+type namedInt1 int
+type namedInt2 int
+type namedPtrInt1 *namedInt1
+type namedPtrInt2 *namedInt2
+
 func (h *H) handPicked() []ty {
 	vals := []interface{}{
 		0, int8(0), int64(0), uint(0), uint8(0), float32(0), 0.0, complex64(0), "", false, 'x',
@@ -40,6 +65,15 @@ func (h *H) handPicked() []ty {
 		bytes.Buffer{}, (*bytes.Buffer)(nil), (*os.File)(nil), (*bufio.Reader)(nil), (*bufio.ReadWriter)(nil), (*strings.Reader)(nil),
 		fmt.Errorf("x"), os.ErrNotExist, (*os.PathError)(nil),
 		r.Int, r.ValueOf(0),
+		// twins and composites over them, named and unnamed
+		(*namedStruct2)(nil), namedPtr1(nil), namedPtr2(nil), namedPtr1b(nil), namedPtrPtr1(nil), (**namedStruct)(nil), (**namedStruct2)(nil), (*namedPtr1)(nil),
+		namedSlice1(nil), namedSlice2(nil), []namedStruct(nil), []namedStruct2(nil),
+		namedArr1{}, namedArr2{}, [2]namedStruct{}, [2]namedStruct2{},
+		namedMap1(nil), namedMap2(nil), map[string]namedStruct(nil), map[string]namedStruct2(nil),
+		namedChan1(nil), namedChan2(nil), (chan namedStruct)(nil), (chan namedStruct2)(nil), (<-chan namedStruct)(nil),
+		namedFunc1(nil), namedFunc2(nil), (func(namedStruct) *namedStruct)(nil), (func(namedStruct2) *namedStruct2)(nil),
+		namedTagged{}, (*namedTagged)(nil), namedPtrTagged(nil),
+		namedInt1(0), namedInt2(0), (*namedInt1)(nil), (*namedInt2)(nil), namedPtrInt1(nil), namedPtrInt2(nil), (*int)(nil),
 	}
 	ifaces := []r.Type{
 		r.TypeOf((*error)(nil)).Elem(), r.TypeOf((*interface{})(nil)).Elem(), r.TypeOf((*io.Reader)(nil)).Elem(),
